@@ -165,7 +165,16 @@ class Model:
 
 
 def run_history(ctx, P, cfg, keys, ops, scratch, oracle, on_new=None, stats=None):
-    """executes `ops` on a fresh filter; after every call `oracle(f, model, i, op, outcome, before)` is invoked, where outcome is
+    """executes `ops` on a fresh filter (see iter_history); returns (filter, model)"""
+    last = (None, None)
+    for last in iter_history(ctx, P, cfg, keys, ops, scratch, oracle, on_new=on_new, stats=stats):
+        pass
+    return last
+
+
+def iter_history(ctx, P, cfg, keys, ops, scratch, oracle, on_new=None, stats=None):
+    """generator form of run_history: yields (filter, model) once after construction and then after every call, so that several
+    histories on several live filters can be interleaved by the caller.  Executes `ops` on a fresh filter; after every call `oracle(f, model, i, op, outcome, before)` is invoked, where outcome is
     ('ok', ret) or ('full', exc) and `before` is the model's Counter before the call.  on_new(f) is called for every
     newly created object (construction, reload).  Only CuckooFilterFullError is a documented failure."""
     from probables.exceptions import CuckooFilterFullError
@@ -178,6 +187,7 @@ def run_history(ctx, P, cfg, keys, ops, scratch, oracle, on_new=None, stats=None
         on_new(f)
     model = Model(cfg)
     stats = stats if stats is not None else Counter()
+    yield f, model
     for i, op in enumerate(ops):
         before = Counter(model.counts)
         kind = op[0]
@@ -237,4 +247,4 @@ def run_history(ctx, P, cfg, keys, ops, scratch, oracle, on_new=None, stats=None
         if f.capacity != cap_before:
             stats["capacity_changes"] += 1
         oracle(f, model, i, op, outcome, before)
-    return f, model
+        yield f, model
